@@ -7,8 +7,12 @@
   * `adjW_cases`            : the decision table yields 0, +1, or (-1 and then `trunc = -1 ∧ digit = 0`)
   * `prescaleUp_total`, `prescaleDown_total`, `prescale_total` : the pre-scaling loops terminate and
       keep a non-zero significand non-zero
-  * `roundLoop_total`       : the main loop terminates from every state with
-      `sig ≠ 0 ∨ trunc ≠ -1 ∨ digit ≠ 0`
+  * `NoDown rm neg`, `noDown_of_modes_sign`, `noDown_of_modes` : `adjust = -1` is never decided unless
+      `rm = 2 ∨ (rm = 5 ∧ neg) ∨ (rm = 4 ∧ ¬neg)`
+  * `roundLoop_total_gen`, `roundLoop_total` : the main loop terminates from every state with
+      `NoDown rm neg ∨ sig ≠ 0 ∨ trunc ≠ -1 ∨ digit ≠ 0`
+  * `round_total_nodown`, `round_total_modes_sign`, `round_total_modes`, `round_total_modes_triple` :
+      unconditional totality (all `sig exp trunc digit`) for `rm ∉ {2,4,5}` (sign-aware: see above)
   * `round_total`           : `sig.toNat ≠ 0 ∨ trunc ≠ -1 ∨ digit ≠ 0 → ∃ r, round … = .ok r`
   * `round_total_triple`    : the same as an `@[spec]` Hoare triple
   * `triple_of_total`       : `(P → ∃ r, f = .ok r) → ⦃⌜P⌝⦄ f ⦃⇓ _ => ⌜True⌝⦄`
@@ -148,11 +152,31 @@ theorem prescale_total (up : Bool) (sig : U128) (exp : Int16) :
 
 /-! ## the main loop -/
 
-/-- the main loop of `round` terminates without panic from every state satisfying
+/-- the decision `adjust = -1` is never taken for this mode and sign -/
+def NoDown (rm : UInt8) (neg : Bool) : Prop :=
+  ∀ (w0 : UInt64) (t : Int8) (d : UInt64), adjW rm neg w0 t d ≠ -1
+
+/-- `adjust = -1` occurs only for `ToZero` (2), `ToPositiveInf` (5) on negative values and
+    `ToNegativeInf` (4) on non-negative values; in particular never for the modes 0, 1, 3 and never for
+    the invalid mode bytes ≥ 6. -/
+theorem noDown_of_modes_sign (rm : UInt8) (neg : Bool)
+    (hm : rm ≠ 2 ∧ ¬ (rm = 5 ∧ neg = true) ∧ ¬ (rm = 4 ∧ neg = false)) : NoDown rm neg := by
+  intro w0 t d
+  unfold adjW
+  repeat' split
+  all_goals first
+    | decide
+    | (exfalso; simp_all)
+
+theorem noDown_of_modes (rm : UInt8) (neg : Bool) (hm : rm ≠ 2 ∧ rm ≠ 4 ∧ rm ≠ 5) : NoDown rm neg :=
+  noDown_of_modes_sign rm neg ⟨hm.1, fun h => hm.2.2 h.1, fun h => hm.2.1 h.1⟩
+
+/-- the main loop of `round` terminates without panic from every state when the mode/sign never
+    decides `adjust = -1`, and otherwise from every state satisfying
     `sig ≠ 0 ∨ trunc ≠ -1 ∨ digit ≠ 0`; the variant is `(if shift then 2^128 else 0) + sig`. -/
-theorem roundLoop_total (rm : UInt8) (neg : Bool) (o : Option (U128 × Int16)) (shift : Bool)
+theorem roundLoop_total_gen (rm : UInt8) (neg : Bool) (o : Option (U128 × Int16)) (shift : Bool)
     (sig : U128) (exp : Int16) (trunc : Int8) (digit : UInt64)
-    (h : sig.toNat ≠ 0 ∨ trunc ≠ -1 ∨ digit ≠ 0) :
+    (h : NoDown rm neg ∨ (sig.toNat ≠ 0 ∨ trunc ≠ -1 ∨ digit ≠ 0)) :
     ∃ r, roundLoop rm neg (o, shift, sig, exp, trunc, digit) = .ok r := by
   induction hn : (if shift = true then 2 ^ 128 else 0) + sig.toNat using Nat.strongRecOn
     generalizing o shift sig exp trunc digit with
@@ -183,7 +207,7 @@ theorem roundLoop_total (rm : UInt8) (neg : Bool) (o : Option (U128 × Int16)) (
         rw [U128_add64_toNat, h1'] at hc
         simp only [Nat.reducePow] at hc hp1 hsig
         have hge : 12980742146337069071326240823050239 ≤ p.1.toNat := by omega
-        apply ih ((if false = true then 2 ^ 128 else 0) + q.toNat) _ none false q _ _ r (Or.inl (by omega)) rfl
+        apply ih ((if false = true then 2 ^ 128 else 0) + q.toNat) _ none false q _ _ r (Or.inr (Or.inl (by omega))) rfl
         rw [← hn]
         cases shift
         · have := hps rfl
@@ -196,7 +220,8 @@ theorem roundLoop_total (rm : UInt8) (neg : Bool) (o : Option (U128 × Int16)) (
         exact ⟨_, rfl⟩
     · rw [roundBody_down _ _ _ _ _ _ _ _ hm]
       have hs0 : sig.toNat ≠ 0 := by
-        rcases h with h | h | h
+        rcases h with h | h | h | h
+        · exact absurd hm (h _ _ _)
         · exact h
         · exact absurd ht h
         · exact absurd hd h
@@ -213,7 +238,7 @@ theorem roundLoop_total (rm : UInt8) (neg : Bool) (o : Option (U128 × Int16)) (
         rw [U128_sub64_toNat, h1'] at hc
         simp only [Nat.reducePow] at hc hp1 hsig
         have hge : 12980742146337069071326240823050241 ≤ p.1.toNat := by omega
-        apply ih ((if false = true then 2 ^ 128 else 0) + q.toNat) _ none false q _ _ r (Or.inl (by omega)) rfl
+        apply ih ((if false = true then 2 ^ 128 else 0) + q.toNat) _ none false q _ _ r (Or.inr (Or.inl (by omega))) rfl
         rw [← hn]
         cases shift
         · have := hps rfl
@@ -225,6 +250,14 @@ theorem roundLoop_total (rm : UInt8) (neg : Bool) (o : Option (U128 × Int16)) (
       · rw [roundTail_done _ _ _ _ _ (by omega)]
         exact ⟨_, rfl⟩
 
+/-- the main loop of `round` terminates without panic from every state satisfying
+    `sig ≠ 0 ∨ trunc ≠ -1 ∨ digit ≠ 0` -/
+theorem roundLoop_total (rm : UInt8) (neg : Bool) (o : Option (U128 × Int16)) (shift : Bool)
+    (sig : U128) (exp : Int16) (trunc : Int8) (digit : UInt64)
+    (h : sig.toNat ≠ 0 ∨ trunc ≠ -1 ∨ digit ≠ 0) :
+    ∃ r, roundLoop rm neg (o, shift, sig, exp, trunc, digit) = .ok r :=
+  roundLoop_total_gen rm neg o shift sig exp trunc digit (Or.inr h)
+
 /-- **Totality of the rounding kernel**: for every rounding-mode byte (valid or not) and all other
     arguments, `round` terminates without panic unless `sig = 0 ∧ trunc = -1 ∧ digit = 0`. -/
 theorem round_total (rm : UInt8) (shift neg : Bool) (sig : U128) (exp : Int16) (trunc : Int8)
@@ -232,6 +265,41 @@ theorem round_total (rm : UInt8) (shift neg : Bool) (sig : U128) (exp : Int16) (
     ∃ r, Gen.RoundingMode.round rm shift neg sig exp trunc digit = .ok r := by
   rw [round_eq_loop]
   exact roundLoop_total rm neg none shift sig exp trunc digit h
+
+/-- **Unconditional totality of the rounding kernel for mode/sign combinations that never round
+    towards zero** (no hypothesis on `sig`, `exp`, `trunc`, `digit`). -/
+theorem round_total_nodown (rm : UInt8) (shift neg : Bool) (sig : U128) (exp : Int16) (trunc : Int8)
+    (digit : UInt64) (hm : NoDown rm neg) :
+    ∃ r, Gen.RoundingMode.round rm shift neg sig exp trunc digit = .ok r := by
+  rw [round_eq_loop]
+  exact roundLoop_total_gen rm neg none shift sig exp trunc digit (Or.inl hm)
+
+/-- sign-aware form: every mode except `ToZero`, `ToPositiveInf` on negative and `ToNegativeInf` on
+    non-negative values -/
+theorem round_total_modes_sign (rm : UInt8) (shift neg : Bool) (sig : U128) (exp : Int16)
+    (trunc : Int8) (digit : UInt64)
+    (hm : rm ≠ 2 ∧ ¬ (rm = 5 ∧ neg = true) ∧ ¬ (rm = 4 ∧ neg = false)) :
+    ∃ r, Gen.RoundingMode.round rm shift neg sig exp trunc digit = .ok r :=
+  round_total_nodown rm shift neg sig exp trunc digit (noDown_of_modes_sign rm neg hm)
+
+/-- `ToNearestEven` (0), `ToNearestAway` (1), `AwayFromZero` (3) and every invalid mode byte ≥ 6:
+    `round` terminates without panic for ALL arguments. -/
+theorem round_total_modes (rm : UInt8) (shift neg : Bool) (sig : U128) (exp : Int16) (trunc : Int8)
+    (digit : UInt64) (hm : rm ≠ 2 ∧ rm ≠ 4 ∧ rm ≠ 5) :
+    ∃ r, Gen.RoundingMode.round rm shift neg sig exp trunc digit = .ok r :=
+  round_total_nodown rm shift neg sig exp trunc digit (noDown_of_modes rm neg hm)
+
+/-- not `@[spec]` (would clash with `round_total_triple`) -/
+theorem round_total_modes_triple (rm : UInt8) (shift neg : Bool) (sig : U128) (exp : Int16)
+    (trunc : Int8) (digit : UInt64) :
+    ⦃⌜rm ≠ 2 ∧ rm ≠ 4 ∧ rm ≠ 5⌝⦄
+    Gen.RoundingMode.round rm shift neg sig exp trunc digit
+    ⦃⇓ _ => ⌜True⌝⦄ :=
+  triple_of_total (round_total_modes rm shift neg sig exp trunc digit)
+
+/-- the default mode on the input on which `ToZero` loops forever -/
+example : ∃ r, Gen.RoundingMode.round 0 true false { w0 := 0, w1 := 0 } 5 (-1) 0 = .ok r :=
+  round_total_modes _ _ _ _ _ _ _ (by decide)
 
 @[spec] theorem round_total_triple (rm : UInt8) (shift neg : Bool) (sig : U128) (exp : Int16)
     (trunc : Int8) (digit : UInt64) :
